@@ -752,6 +752,87 @@ func TestVerif_C10_j2k_encoder_history(t *testing.T) {
 	}
 }
 
+
+// Parameters changed between two calls on one Encoder (the Encoder keeps the caller's *EncodeParams):
+// the second output must be what a fresh Encoder produces for the new parameters.
+func TestVerif_C10_j2k_encoder_param_change(t *testing.T) {
+	rep := verifNewReport(t, "TestVerif_C10_j2k_encoder_param_change",
+		"one jpeg2000.Encoder per start config {RGB ICT q70, RGB RCT lossless, gray lossy q60} x bitDepth{8,12}; Encode(A); then one parameter of the SAME params object is changed {EnableMCT off, EnableMCT on, Lossless flipped, Quality 30, NumLevels 1, NumLayers 2}; Encode(B) must equal the output of a fresh Encoder with the changed parameters")
+	defer rep.finish()
+	r := verifNewRng(1014)
+	type start struct {
+		name  string
+		comps int
+		set   func(p *jpeg2000.EncodeParams)
+	}
+	starts := []start{
+		{"rgb_ict_q70", 3, func(p *jpeg2000.EncodeParams) { p.Lossless = false; p.Quality = 70 }},
+		{"rgb_rct", 3, nil},
+		{"rgb_ict_nomct", 3, func(p *jpeg2000.EncodeParams) { p.Lossless = false; p.Quality = 70; p.EnableMCT = false }},
+		{"gray_q60", 1, func(p *jpeg2000.EncodeParams) { p.Lossless = false; p.Quality = 60 }},
+	}
+	type change struct {
+		name string
+		do   func(p *jpeg2000.EncodeParams)
+	}
+	changes := []change{
+		{"mct_off", func(p *jpeg2000.EncodeParams) { p.EnableMCT = false }},
+		{"mct_on", func(p *jpeg2000.EncodeParams) { p.EnableMCT = true }},
+		{"flip_lossless", func(p *jpeg2000.EncodeParams) { p.Lossless = !p.Lossless; p.Quality = 75 }},
+		{"quality30", func(p *jpeg2000.EncodeParams) { p.Quality = 30 }},
+		{"levels1", func(p *jpeg2000.EncodeParams) { p.NumLevels = 1 }},
+		{"layers2", func(p *jpeg2000.EncodeParams) { p.NumLayers = 2 }},
+	}
+	const w, h = 24, 16
+	for _, st := range starts {
+		for _, bd := range []int{8, 12} {
+			ba := 8
+			if bd > 8 {
+				ba = 16
+			}
+			imgA := verifFrame(r, w, h, ba, bd, st.comps, 0)
+			imgB := verifFrame(r, w, h, ba, bd, st.comps, 1)
+			for _, ch := range changes {
+				mk := func(changed bool) *jpeg2000.EncodeParams {
+					p := jpeg2000.DefaultEncodeParams(w, h, st.comps, bd, false)
+					p.NumLevels = 2
+					if st.set != nil {
+						st.set(p)
+					}
+					if changed {
+						ch.do(p)
+					}
+					return p
+				}
+				desc := fmt.Sprintf("start=%s change=%s comps=%d bits=%d w=%d h=%d", st.name, ch.name, st.comps, bd, w, h)
+				want, err, o := verifEnc(func() ([]byte, error) { return jpeg2000.NewEncoder(mk(true)).Encode(imgB) })
+				if o.panicked || o.timedOut || err != nil {
+					rep.note(desc + " not encodable with the changed parameters: " + verifErrStr(err) + o.msg)
+					continue
+				}
+				p := mk(false)
+				enc := jpeg2000.NewEncoder(p)
+				if _, err, o := verifEnc(func() ([]byte, error) { return enc.Encode(imgA) }); o.panicked || o.timedOut || err != nil {
+					rep.note(desc + " first image not encodable: " + verifErrStr(err) + o.msg)
+					continue
+				}
+				ch.do(p)
+				got, err, o := verifEnc(func() ([]byte, error) { return enc.Encode(imgB) })
+				switch {
+				case o.panicked || o.timedOut:
+					rep.fail("encoder_panic_after_param_change:"+o.msg, desc)
+				case err != nil:
+					rep.fail("encoder_error_after_param_change", desc+" err="+verifErrStr(err))
+				case !verifEqualBytes(got, want):
+					rep.fail("encoder_output_depends_on_previous_call:"+ch.name, fmt.Sprintf("%s len_reused=%d len_fresh=%d first_diff=%d", desc, len(got), len(want), verifFirstDiff(got, want)))
+				default:
+					rep.ok()
+				}
+			}
+		}
+	}
+}
+
 // ---------------------------------------------------------------- timing: overlapping calls on one codec object
 
 func TestVerif_C10_concurrent_calls(t *testing.T) {
